@@ -5,6 +5,20 @@ open Canvas Canvas.C05
 def epsF : Float := 1e-10
 def fuelF : Nat := 2000000
 
+/-- Go `math.Mod(x, y)` for finite `x` and finite `y > 0`, computed exactly in floats: repeatedly
+subtract the largest `y·2^k ≤ r` (the scaling by a power of two and, by Sterbenz, the subtraction
+are exact). NaN for `y ≤ 0`, non-finite arguments as Go where it matters here. -/
+def fmodUp (r : Float) : Nat → Float → Float
+  | 0, s => s
+  | n + 1, s => if s + s ≤ r then fmodUp r n (s + s) else s
+def fmodPos : Nat → Float → Float → Float
+  | 0, r, _ => r
+  | n + 1, r, y => if r < y then r else fmodPos n (r - fmodUp r 2200 y) y
+def fmodF (x y : Float) : Float :=
+  if x.isNaN || y.isNaN || x.isInf || !(y > 0) then (0.0 / 0.0)
+  else if y.isInf then x
+  else if x < 0 then -(fmodPos 2200 (-x) y) else fmodPos 2200 x y
+
 def floats? : List String → Option (List Float)
   | [] => some []
   | s :: r => do
@@ -43,7 +57,7 @@ def handle : List String → Option String
   | "START" :: off :: r => do
     let o ← floatOfHex? off
     let (d, _) ← counted? r
-    match dashStart fuelF o d with
+    match dashStart fmodF fuelF o d with
     | none => pure "PANIC"
     | some (i0, pos0) => pure s!"{i0} {hexOfFloat pos0}"
   | "DASH" :: off :: r => do
@@ -53,7 +67,7 @@ def handle : List String → Option String
     | [] => none
     | _ :: r'' =>
       let ss ← subs? r''
-      match dash epsF fuelF o d ss with
+      match dash fmodF epsF fuelF o d ss with
       | .whole => pure "W"
       | .stuck => pure "STUCK"
       | .pieces ps =>
